@@ -99,6 +99,11 @@ def rule_data_kernels(ctx: Ctx, rule: str = "parser-kernel-law") -> None:
         p = cmp_tl(r, {"x": sym("a_x"), "y": sym("a_y")}, sym("a_c"))
         if p:
             return "no coefficient (=1): " + p
+        # a coefficient that is exactly 0 (two equal absolute terms cancelled) is a number, not "no coefficient"
+        r = ta.method(mk_at(t, num(0)), "to_term_list", [])
+        p = cmp_tl(r, {}, num(0))
+        if p:
+            return "coefficient 0: " + p
         r = ta.method(mk_at(t, sym("m")), "to_term_list", [])
         return cmp_tl(r, {"x": sym("m") * sym("a_x"), "y": sym("m") * sym("a_y")}, sym("m") * sym("a_c"))
 
@@ -180,6 +185,14 @@ def rule_data_kernels(ctx: Ctx, rule: str = "parser-kernel-law") -> None:
             return "|a_x x + p_c| next to a_x x expands to %d term lists instead of 2: the combination without variables was dropped" % len(rc.items)
         if not any(cmp_tl(g, {}, sym("a_c") - sym("p_c")) is None for g in rc.items):
             return "the variable-free sign combination (a_c - p_c <= 0) is missing from the expansion"
+        # the absolute value of a plain number still has two cases: |c| is c or -c, whichever is not negative
+        konst = Rec(TL, {"constant": sym("k_c"), "factors": DictV({})})
+        rk = ta.method(mk_atl(base, [mk_at(konst, NONE)]), "expand", [])
+        if len(rk.items) != 2:
+            return "|k_c| (an absolute value without variables) expands to %d term list(s) instead of 2: for a negative k_c the kept case is the wrong one" % len(rk.items)
+        for sgn in (1, -1):
+            if not any(cmp_tl(g, {"x": sym("a_x")}, sym("a_c") + num(sgn) * sym("k_c")) is None for g in rk.items):
+                return "the case %s|k_c| is missing from the expansion of an absolute value without variables" % ("+" if sgn > 0 else "-")
         r0 = ta.method(mk_atl(base, []), "expand", [])
         if len(r0.items) != 1 or cmp_tl(r0.items[0], {"x": sym("a_x")}, sym("a_c")):
             return "without absolute terms expand() does not return the plain term list"
